@@ -95,6 +95,55 @@ func c20ListDuring(cmd string, lists int, warm bool) *Scenario {
 	return sc
 }
 
+// c20StateAfterOverlap: `stop` / `pause` / `resume` of a service returns while a deploy of the same service is waiting
+// for its target; when both have returned `list` shows the state the gate command established and the new target.
+func c20StateAfterOverlap(gate string) *Scenario {
+	sc := &Scenario{Name: "C20-S " + gate + " while a deploy of the same service waits for its target", Horizon: 40 * time.Second}
+	var after string
+	sc.Run = func(w *World) {
+		after = ""
+		w.AddTarget("oa:80")
+		w.AddTarget("na:80", p500(), pOK())
+		w.Deploy(deployArgs("s1", []string{"oa:80"}, []string{"a.example.com"}, nil))
+		if gate == "resume" {
+			w.Stop("s1", vD, "m")
+		}
+		time.Sleep(100 * time.Millisecond)
+		var wg vsync.WaitGroup
+		wg.Add(2)
+		w.S.SetWindow(true)
+		vsched.GoTagged("cmd", func() {
+			defer wg.Done()
+			w.Deploy(deployArgs("s1", []string{"na:80"}, []string{"a.example.com"}, nil))
+		})
+		time.Sleep(200 * time.Millisecond)
+		vsched.GoTagged("cmd", func() {
+			defer wg.Done()
+			switch gate {
+			case "stop":
+				w.Stop("s1", vD, "m")
+			case "pause":
+				w.Pause("s1", vD, vMaxPause)
+			case "resume":
+				w.Resume("s1")
+			}
+		})
+		wg.Wait()
+		w.S.SetWindow(false)
+		l, _ := w.List()
+		after = c20ListSummary(l)
+	}
+	sc.Check = func(w *World) []Violation {
+		state := map[string]string{"stop": "stopped", "pause": "paused", "resume": "running"}[gate]
+		want := "s1 host=a.example.com path=/ target=na:80 state=" + state + " tls=false"
+		if after != want {
+			return []Violation{{"C20", "list-state-after-overlapping-deploy " + gate, fmt.Sprintf("`%s s1` returned while a deploy of s1 was waiting for its target; after both returned list shows {%s}, expected {%s}", gate, after, want)}}
+		}
+		return nil
+	}
+	return sc
+}
+
 func checkC20(t *testing.T, job *Job, res *Result) {
 	tier := job.Tier
 	if job.Replay != nil {
@@ -106,10 +155,13 @@ func checkC20(t *testing.T, job *Job, res *Result) {
 			scs = append(scs, c20ListDuring(cmd, n, false), c20ListDuring(cmd, n, true))
 		}
 	}
+	for _, g := range []string{"stop", "pause", "resume"} {
+		scs = append(scs, c20StateAfterOverlap(g))
+	}
 	b := Bounds{D: 2, S: 0}
 	if tier == "thorough" {
 		b = Bounds{D: 3, S: 0}
 	}
-	res.Rule = "engine S part: one or two `list` commands (the first since the last change, or not) overlapping {deploy of a new service, redeploy with another target and host, remove, stop, pause}, every schedule within the bounds from both default schedules; afterwards two `list`s return exactly the deployed services with their hosts, paths, targets, state and TLS flag"
+	res.Rule = "engine S part: stop / pause / resume returning while a deploy of the same service waits for its target (list shows the new state and the new target); one or two `list` commands (the first since the last change, or not) overlapping {deploy of a new service, redeploy with another target and host, remove, stop, pause}, every schedule within the bounds from both default schedules; afterwards two `list`s return exactly the deployed services with their hosts, paths, targets, state and TLS flag"
 	runS(t, job, res, "C20", withReversed(scs), b, 0)
 }
